@@ -162,6 +162,10 @@ type Run struct {
 	armed    map[string]bool
 	delays   map[string]time.Duration
 	sleepers atomic.Int32
+	// set once the client is being shut down (Close, an injected fault): the goroutines that are on their way out are
+	// not held any more, so that the duration of the shutdown does not depend on how many more hand-overs the Go
+	// runtime lets them perform before they notice the cancellation
+	holdsOff atomic.Bool
 	// RestBarrier, if set, is called by the scheduler whenever the run has come to rest
 	RestBarrier func()
 	maxHold     time.Duration
@@ -322,6 +326,9 @@ func (r *Run) SetDelay(site string, d time.Duration) {
 	r.mu.Unlock()
 }
 
+// HoldsOff ends all holds of this run (a hold that is in progress runs out).
+func (r *Run) HoldsOff() { r.holdsOff.Store(true) }
+
 // MaxHold is the longest hold configured for this run (0: none).
 func (r *Run) MaxHold() time.Duration {
 	r.mu.Lock()
@@ -369,7 +376,7 @@ func (r *Run) Hook(site string) {
 			// a hold: the goroutine stays here for a span the harness can act in (Close, deliveries); it counts as at rest.
 			// Holds stop after the first 30 s of simulated time (a site passed once per sample would otherwise slow
 			// the client down for the whole run).
-			if time.Since(r.start) < 30*time.Second {
+			if time.Since(r.start) < 30*time.Second && !r.holdsOff.Load() {
 				time.Sleep(d)
 			}
 		case d > 0:
